@@ -5,6 +5,8 @@ mod alloc;
 mod bitmap_build;
 #[allow(dead_code)]
 mod morx_build;
+#[allow(dead_code)]
+mod woff2_build;
 mod disk;
 mod exec;
 mod fields;
